@@ -253,7 +253,7 @@ func tierBounds(tier string, sc *scenario) bounds {
 		groups[g] = true
 	}
 	if tier == "thorough" {
-		b := bounds{depth: 7, maxStates: 25000, foreign: foreignKinds, maxTargets: 2}
+		b := bounds{depth: 7, maxStates: 60000, foreign: foreignKinds, maxTargets: 2}
 		if len(groups) > 1 {
 			b.depth = 6
 			if len(sc.Pods) >= 4 {
